@@ -267,3 +267,55 @@ func checkSdpAgainstPublished(k *sim.Kernel, name string, rc *RtspContent, hevc 
 }
 
 func base64Std(b []byte) string { return base64.StdEncoding.EncodeToString(b) }
+
+// checkStaleSdp: an RTSP player that sent DESCRIBE after a publisher incarnation had left (its connection closed
+// and lal's teardown done) must not be answered with that incarnation's stream description.
+func checkStaleSdp(k *sim.Kernel, rr *RelayRun, accepted map[int][]*PubState, rule string) {
+	for ci, c := range rr.Cons {
+		if c.Rtsp == nil || c.Rtsp.SdpRecv == "" || c.Rtsp.DescribeStep <= 0 {
+			continue
+		}
+		var dead, alive []*PubState
+		for _, p := range accepted[c.Plan.Stream] {
+			// dead: lal had closed the connection and the connection's goroutine had released its last mutex (the
+			// teardown under the group lock was over) before the DESCRIBE was even handed to the network
+			if p.Actor.ClosedStep >= 0 && p.Actor.ClosedStep < c.Rtsp.DescribeStep && p.Actor.Conn.Idle2() && p.Actor.Conn.LastUnlockStep() < c.Rtsp.DescribeStep {
+				dead = append(dead, p)
+			} else {
+				alive = append(alive, p)
+			}
+		}
+		carries := func(ps []*PubState, kind media.Kind, b []byte) *PubState {
+			for _, p := range ps {
+				for i := range p.Units {
+					if p.Units[i].Kind == kind && bytes.Contains(p.Units[i].Msg.Payload, b) {
+						return p
+					}
+				}
+			}
+			return nil
+		}
+		for _, t := range actors.ParseSdpTracks(c.Rtsp.SdpRecv) {
+			var blob []byte
+			kind := media.KVideoSeq
+			switch t.Enc {
+			case "H264":
+				if parts := strings.Split(t.Fmtp["sprop-parameter-sets"], ","); len(parts) == 2 {
+					blob, _ = base64.StdEncoding.DecodeString(parts[1])
+				}
+			case "H265":
+				blob, _ = base64.StdEncoding.DecodeString(t.Fmtp["sprop-pps"])
+			case "MPEG4-GENERIC":
+				kind = media.KAudioSeq
+				blob, _ = hex.DecodeString(t.Fmtp["config"])
+			}
+			if len(blob) == 0 {
+				continue
+			}
+			if d := carries(dead, kind, blob); d != nil && carries(alive, kind, blob) == nil {
+				k.Violate(rule, "cons%d(%s) sent DESCRIBE after publisher incarnation %d had left, yet the SDP it got describes that publisher's %s parameters (%x)", ci, c.Plan.Proto, d.Plan.Inc, t.Enc, blob)
+			}
+			k.Probe("c16_rtsp_sdp_checked")
+		}
+	}
+}
